@@ -15,7 +15,7 @@
                          ("Listening port is unregistered in Drop implementation of Listener"), dropping the dialer's
                          channel frees the ephemeral port.  Removing / dropping never affects ANOTHER listener's port.
    M5 OrderedBytes       bytes written on one end are read on the other end in order, exactly once; EOF after the
-                         writer is gone (trace spec only).
+                         writer is gone; a write fails once the other end is gone (trace spec only).
    M6 NoLeak             every hub entry belongs to a live listener or a live outgoing connection.
 
    The model transcribes HUB / Listener / DialFuture / Chan.  Two named deviations of the code as found:
